@@ -23,6 +23,13 @@
 //!                file per definition (file names whose sorted order is the order): same exit status of `check` /
 //!                `generate` and the same multiset of (file type, message, definition, position inside it); the
 //!                family and the comparison are in c17/multidef.rs;
+//!  (a'') `tied-positions` FAULTY multi-file projects in which k = 2..6 diagnostics of one stage sit at the SAME (line, column)
+//!                of DIFFERENT files (a fault template instantiated once per file with identifiers of equal width; verbatim
+//!                copy-pasted operation files): duplicate names across kinds, unknown types, misplaced / unknown / repeated
+//!                directives, duplicate fields / values / arguments, interface and union faults, kind mix-ups, extensions,
+//!                parse errors, operation faults of every rule, imports. N fresh processes per (command, output format:
+//!                human, json, rdjson): exit code, stdout (diagnostic ORDER), stderr and all files byte-identical
+//!                (c17/ties.rs; added after seeded mutation m5: a position sort that ignores the file);
 //!  (d) `loader`  the real loader ABI (`loader_native`), required files loaded in different orders, many tasks per
 //!                process (every `HashMap::new()` gets a fresh `RandomState`): `emit_js` output must not vary.
 //! O failures: any byte difference between runs (signature = file kind + first differing construct), any
@@ -44,6 +51,8 @@ use std::time::Duration;
 mod targeted;
 #[path = "c17/multidef.rs"]
 mod multidef;
+#[path = "c17/ties.rs"]
+mod ties;
 
 type Files = Vec<(String, String)>;
 
@@ -252,6 +261,8 @@ struct Ctx<'a> {
     cli: String,
     scratch: String,
     counter: usize,
+    /// development aid (`--dump 1`): print the diagnostics of every tied-positions project
+    dump: bool,
 }
 
 struct RunOut {
@@ -1135,9 +1146,24 @@ fn loader_stream(ctx: &mut Ctx, rng: &mut Rng, case: &LoaderCase, trials: usize,
 
 // ---------------------------------------------------------------------------------------------
 
-fn faulty_variant(rng: &mut Rng, spec: &Spec, schema_faults: bool) -> Files {
+/// `at_top`: the faults are the FIRST line of every file instead (identifiers of equal width), so that the diagnostics of
+/// the files tie pairwise on (line, column); a cross-kind name clash per schema file is added (its second half at the end)
+fn faulty_variant(rng: &mut Rng, spec: &Spec, schema_faults: bool, at_top: bool) -> Files {
     let mut files = spec_files(spec);
     let mut k = 0;
+    if at_top {
+        for (p, t) in files.iter_mut() {
+            if schema_faults && p.starts_with("schema/") {
+                *t = format!("enum Dup{k} {{ A }} type BadType{k} {{ f{k}: NoSuchType{k} g: NoSuchOther{k} }}\n{t}\ntype Dup{k} {{ x: Int }}\n");
+                k += 1;
+            }
+            if !schema_faults && p.starts_with("ops/") && p.ends_with(".graphql") {
+                *t = format!("query Bad{k}a {{ __nope{k} }} query Bad{k}b($v: NoSuchInput{k}) {{ __typename ...Missing{k} }} fragment BadF{k} on NoSuchType{k} {{ x }}\n{t}");
+                k += 1;
+            }
+        }
+        return files;
+    }
     for (p, t) in files.iter_mut() {
         if schema_faults && p.starts_with("schema/") {
             t.push_str(&format!("\ntype BadType{k} {{ f{k}: NoSuchType{k} g: NoSuchOther{k} }}\n"));
@@ -1264,6 +1290,16 @@ fn replay(ctx: &mut Ctx, rng: &mut Rng, c: &Value) {
             let rec: Option<BTreeSet<String>> = c["recursing"].as_array().map(|a| a.iter().map(|x| x.as_str().unwrap_or("").to_string()).collect());
             ctx.multidef_expect(c["class"].as_str().unwrap_or("?"), c["project"].as_str().unwrap_or("?"), &defs, &la, &outs[0], c["expect_rejected"].as_bool(), rec.as_ref());
         }
+        "ties" => {
+            let files = files_from_json(&c["files"]);
+            let tpl = ties::Tpl { stage: Box::leak(c["stage"].as_str().unwrap_or("?").to_string().into_boxed_str()), name: Box::leak(c["template"].as_str().unwrap_or("?").to_string().into_boxed_str()),
+                base: "", per_unit_base: "", unit: "", ids: None, single: true };
+            let cmd = c["cmd"].as_str().unwrap_or("check").to_string();
+            let format = c["format"].as_str().unwrap_or("json").to_string();
+            // a replay uses at least 24 processes: two orders of two tied diagnostics are told apart with probability 1 - 2^-23
+            let runs = (c["runs"].as_u64().unwrap_or(6) as usize).max(24);
+            ties_project(ctx, &tpl, c["k"].as_u64().unwrap_or(2) as usize, &files, &[(cmd.as_str(), format.as_str())], runs, false);
+        }
         "sites" => k_sites(ctx),
         "idents" => k_idents(ctx, rng, 0),
         other => ctx.rep.notes.push(format!("unknown replay kind {other:?}")),
@@ -1285,6 +1321,98 @@ fn multidef_stream(ctx: &mut Ctx, rng: &mut Rng, args: &Args) {
     }
 }
 
+/// (a'') faulty projects whose diagnostics tie on (line, column) across files, N fresh processes per command and format
+fn ties_project(ctx: &mut Ctx, tpl: &ties::Tpl, k: usize, files: &Files, combos: &[(&str, &str)], runs: usize, expect_tie: bool) {
+    let mut jobs: Vec<ties::Job> = vec![];
+    for (cmd, format) in combos {
+        for _ in 0..runs {
+            jobs.push(ties::Job { files, cmd, format });
+        }
+    }
+    ctx.counter += 1;
+    let outs = ties::run_jobs(&ctx.cli, &ctx.scratch, &format!("p{}", ctx.counter), &jobs);
+    ctx.rep.evaluations += jobs.len() as u64;
+    ctx.rep.count(&format!("tied-positions:stage:{}", tpl.stage));
+    ctx.rep.count(&format!("tied-positions:k:{k}"));
+    ctx.rep.nontrivial(&format!("ties|{files:?}"));
+    for (c, (cmd, format)) in combos.iter().enumerate() {
+        let set = &outs[c * runs..(c + 1) * runs];
+        let first = &set[0];
+        ctx.rep.o_cases += 1;
+        ctx.rep.count(&format!("tied-positions:{cmd}:{format}"));
+        if first.code == Some(0) {
+            ctx.rep.fail("O", &format!("unexpected-verdict:{cmd}:faulty-project-accepted"),
+                &format!("template '{}' ({}): `{cmd}` exits 0 on a project that is faulty by construction", tpl.name, tpl.stage),
+                json!({"kind": "repeat", "cmd": cmd, "runs": 1, "expect_ok": false, "files": files_json(files)}));
+        }
+        if *format == "json" {
+            // construction check: do k diagnostics really tie? (a note, not a failure: the property does not ask for it)
+            let d = ties::diagnostics(&first.stdout);
+            let deg = ties::tie_degree(&d);
+            if ctx.dump {
+                eprintln!("{} {} k={k} {cmd} exit {:?} tie-degree {deg}", tpl.stage, tpl.name, first.code);
+                for x in &d {
+                    eprintln!("    {}:{}:{} {}", x.0.trim_start_matches("<ROOT>/"), x.1, x.2, x.3);
+                }
+                if d.is_empty() {
+                    eprintln!("    {}", first.stdout.trim());
+                }
+            }
+            ctx.rep.count(&format!("tied-positions:tie-degree:{}", if tpl.single { "single-diagnostic-stage".to_string() } else { deg.min(k).to_string() }));
+            if expect_tie && !tpl.single && deg < k {
+                ctx.rep.count(&format!("tied-positions:template-without-tie:{}", tpl.name));
+            }
+        }
+        for (r, next) in set.iter().enumerate().skip(1) {
+            if let Some(diff) = ties::difference(first, next) {
+                let class = if diff.1 == "differs" { "differs" } else { ties::order_or_content(&diff.2, &diff.3) };
+                let sig = format!("nondeterministic:tied-positions:{}:{cmd}:{format}:{}:{class}", tpl.stage, diff.0);
+                ctx.rep.fail("O", &sig,
+                    &format!("template '{}', {k} instances (one per file): run 1 and run {} of `--output-format {format} {cmd}` in fresh processes differ in {} ({}):\n{}\n---\n{}", tpl.name, r + 1, diff.0, diff.1,
+                        diff.2.chars().take(700).collect::<String>(), diff.3.chars().take(700).collect::<String>()),
+                    ties::case_json(tpl.stage, tpl.name, k, cmd, format, runs, files, Some(&diff)));
+                break;
+            }
+        }
+    }
+}
+
+fn ties_stream(ctx: &mut Ctx, rng: &mut Rng, args: &Args) {
+    let runs = args.budget(6, 20);
+    let tpls = ties::templates();
+    // smallest projects first: the first failure of a signature (the one kept as the replay) is the smallest
+    let ks: Vec<usize> = if args.thorough() { vec![2, 3, 4, 5, 6] } else { vec![2, 3, 0] };
+    let formats = ["json", "human", "rdjson"];
+    let mut n = 0usize;
+    let parity = (args.seed % 2) as usize;
+    for (pass, k) in ks.into_iter().enumerate() {
+        for (ti, tpl) in tpls.iter().enumerate() {
+            // quick: k = 2 (`check` only), k = 3, and one of 4..6 for every other template (which half: by the seed)
+            if k == 0 && ti % 2 != parity {
+                continue;
+            }
+            let k = if k == 0 { 4 + rng.below(3) } else { k };
+            let k = k.min(tpl.ids.map(|i| i.len()).unwrap_or(usize::MAX));
+            // k = 2, 3: both definitions of a clashing pair in files of their own; later passes: at random
+            let split = pass < 2 || rng.coin();
+            let files = ties::project(rng, tpl, k, split);
+            let mut combos: Vec<(&str, &str)> = formats.iter().map(|f| ("check", *f)).collect();
+            if args.thorough() {
+                combos.extend(formats.iter().map(|f| ("generate", *f)));
+            } else if pass > 0 {
+                combos.push(("generate", formats[n % 3]));
+            }
+            n += 1;
+            ties_project(ctx, tpl, k, &files, &combos, runs, split || tpl.per_unit_base.is_empty());
+        }
+    }
+    let untied: Vec<String> = ctx.rep.dist.keys().filter_map(|k| k.strip_prefix("tied-positions:template-without-tie:").map(|s| s.to_string())).collect();
+    if !untied.is_empty() {
+        ctx.rep.notes.push(format!("tied-positions: templates whose diagnostics did not tie on (line, column) across files (harness construction, not a finding): {untied:?}"));
+    }
+    ctx.rep.notes.push(format!("tied-positions: {runs} fresh processes per (project, command, output format); k = 3 tied diagnostics in a uniformly random order are told apart with probability 1 - 6^-{} per set of runs", runs - 1));
+}
+
 fn main() {
     let args = Args::parse();
     quiet_panics();
@@ -1294,7 +1422,7 @@ fn main() {
     let scratch = if args.scratch.is_empty() { std::env::temp_dir().join("nv-c17").to_string_lossy().to_string() } else { args.scratch.clone() };
     let mut rng = Rng::new(args.seed);
     loader_native::init(0);
-    let mut ctx = Ctx { rep: &mut rep, drv: &mut drv, cli: cli.clone(), scratch, counter: 0 };
+    let mut ctx = Ctx { rep: &mut rep, drv: &mut drv, cli: cli.clone(), scratch, counter: 0, dump: args.extra.contains_key("dump") };
 
     if let Some(path) = &args.replay {
         let v: Value = serde_json::from_str(&std::fs::read_to_string(path).expect("replay file")).expect("replay json");
@@ -1306,6 +1434,12 @@ fn main() {
     // development aid: `--only multi-def` runs that stream alone
     if args.extra.get("only").map(|s| s.as_str()) == Some("multi-def") {
         multidef_stream(&mut ctx, &mut rng, &args);
+        rep.write(&args);
+        return;
+    }
+
+    if args.extra.get("only").map(|s| s.as_str()) == Some("tied-positions") {
+        ties_stream(&mut ctx, &mut rng, &args);
         rep.write(&args);
         return;
     }
@@ -1345,9 +1479,13 @@ fn main() {
             // faulty projects: diagnostics identical in identical order across processes; same set under permutation
             if idx % 2 == 0 || args.thorough() {
                 for schema_faults in [false, true] {
-                    let faulty = faulty_variant(&mut rng, &spec, schema_faults);
+                    let faulty = faulty_variant(&mut rng, &spec, schema_faults, false);
                     let base = ctx.repeat(&faulty, "check", runs, Some(false));
                     ctx.rep.count(if schema_faults { "faults:schema" } else { "faults:operations" });
+                    // the same faults as the first line of every file: diagnostics that tie on (line, column) across files
+                    let tied = faulty_variant(&mut rng, &spec, schema_faults, true);
+                    ctx.repeat(&tied, "check", runs, Some(false));
+                    ctx.rep.count(if schema_faults { "faults:schema:tied-at-top" } else { "faults:operations:tied-at-top" });
                     // permuted faulty project: files renamed (glob order changes)
                     let mut renamed = faulty.clone();
                     let mut i = 0;
@@ -1386,6 +1524,9 @@ fn main() {
         }
 
         multidef_stream(&mut ctx, &mut rng, &args);
+
+        // (a'') faulty projects whose diagnostics tie on (line, column) across files
+        ties_stream(&mut ctx, &mut rng, &args);
 
         // (a') introspection-JSON schemas that omit several built-in scalars
         let hand: [(&str, &str, &str, &str); 3] = [
